@@ -43,6 +43,23 @@ class ModuleInfo:
                             self.consts[t.id] = _const_eval(node.value, self.consts)
                         except Exception:
                             self.consts.setdefault('__nodes__', {})[t.id] = node.value
+        # functions defined under a module-level `if` (platform variants): addressable as 'name$k', k = 1.. in
+        # source order (never shadow a plain top-level definition)
+        def _cond_defs(stmts, acc):
+            for n in stmts:
+                if isinstance(n, ast.If):
+                    _cond_defs(n.body, acc)
+                    _cond_defs(n.orelse, acc)
+                elif isinstance(n, (ast.FunctionDef, ast.AsyncFunctionDef)):
+                    acc.append(n)
+        cdefs = []
+        for node in self.tree.body:
+            if isinstance(node, ast.If):
+                _cond_defs([node], cdefs)
+        seen = {}
+        for n in cdefs:
+            seen[n.name] = seen.get(n.name, 0) + 1
+            self.functions.setdefault(f'{n.name}${seen[n.name]}', n)
 
     def get_function(self, qualname):
         parts = qualname.split('.')
